@@ -96,7 +96,7 @@ class C11(Check):
             cases.append(spec)
         hs = {k: rng.randrange(1, 1 << 31) for k in ('B', 'L1', 'L2', 'L3', 'D')}
         return {'cases': cases, 'hashseeds': hs, 'gens': rng.choice([1, 2, 2, 3]), 'standalone': rng.random() < 0.8,
-                'cli': rng.choice([False, False, 'plain', 'compress'])}
+                'cli': rng.choice([False, False, 'plain', 'compress']), 'warm': rng.random() < 0.5}
 
     def execute(self, plan, forced=None):
         out = Outcome()
@@ -125,12 +125,12 @@ class C11(Check):
             o = case['options']
             return plan.get('cli') and not case.get('user') and 'g_regex_flags' not in o and not o.get('strict') and case.get('input_kind', 'str') == 'str'
         cli = {c['name']: bool(cli_ok(c)) for c in plan['cases']}
-        tB = run('B', [{'do': 'build', 'cfg': c, 'standalone': plan['standalone'], 'cli': cli[c], 'compress_cli': plan.get('cli') == 'compress'} for c in cfgs])
+        tB = run('B', [{'do': 'build', 'cfg': c, 'standalone': plan['standalone'], 'cli': cli[c], 'compress_cli': plan.get('cli') == 'compress', 'warm': plan.get('warm', False)} for c in cfgs])
         if tB is None:
             return
         steps = []
         for c in cfgs:
-            steps.append({'do': 'load', 'cfg': c, 'gen': 1, 'resave': gens >= 2})
+            steps.append({'do': 'load', 'cfg': c, 'gen': 1, 'resave': gens >= 2, 'warm': plan.get('warm', True)})
             steps.append({'do': 'cache', 'cfg': c})
             if plan['standalone']:
                 steps.append({'do': 'standalone', 'cfg': c})
